@@ -34,4 +34,14 @@ def dropOverridden : List (Rat × Rat) → List (Rat × Rat)
 def effectivePairs (bpms : List (Rat × Rat)) : List (Rat × Rat) :=
   dropOverridden (isort (fun a b => decide (a.1 ≤ b.1)) bpms)
 
+/-- the tempo change in force at position `s`: the last one the integration of `timeAt` passes -/
+def activeAux (cur : BcSnap) : List BcSnap → Snap → BcSnap
+  | [], _ => cur
+  | nxt :: rest, s => if nxt.snap.le s then activeAux nxt rest s else cur
+
+def activeChange (cs : List BcSnap) (s : Snap) : BcSnap :=
+  match cs with
+  | [] => default
+  | c :: rest => activeAux c rest s
+
 end Reamber.SM
